@@ -1133,24 +1133,41 @@ func genC13(w *bufio.Writer, seed int64, n int, tier string) {
 		if i%10 == 9 {
 			kind = "engine"
 		}
-		if i%125 == 124 {
-			// the real Primary emits (about 1.5 s each): a transaction placed around the 100-entry
-			// fetch limit, sometimes far from it
-			pre := 90 + r.Intn(12)
-			if r.Intn(4) == 0 {
-				pre = r.Intn(40)
+		if i%63 == 62 {
+			// the real Primary emits (1-2 s each). The log is built so that the 100th entry of
+			// some fetch falls inside a transaction: lead*100 singles (the window slides over them
+			// fetch by fetch), then 100-j singles and a batch of j+1..j+5 entries, i.e. the cut
+			// leaves 1..5 entries of the transaction behind it (1 = only its last entry). Mostly
+			// the transaction is the NEWEST thing in the log; sometimes entries follow. With
+			// start=S the replica owns everything below S and the first fetch starts there.
+			lead := (i / 63) % 3
+			j := 1 + r.Intn(40)
+			if r.Intn(6) == 0 {
+				j = 100 + r.Intn(30) // no cut at all: the whole log fits into one fetch
 			}
-			fmt.Fprintf(w, "case c13-%d-%d kind=emit start=1 class=emit\n", seed, i)
-			for j := 0; j < pre; j++ {
-				fmt.Fprintf(w, "w put %s %s\n", mkTok([]byte(fmt.Sprintf("p%03d", j))), c13Val(r))
+			start := 1
+			if (i/63)%2 == 1 {
+				start = 2 + r.Intn(60)
 			}
-			tx := 2 + r.Intn(30)
+			pre := lead*100 + (start - 1)
+			if j < 100 {
+				pre += 100 - j
+			} else {
+				pre += r.Intn(40)
+			}
+			fmt.Fprintf(w, "case c13-%d-%d kind=emit start=%d class=emit\n", seed, i, start)
+			for x := 0; x < pre; x++ {
+				fmt.Fprintf(w, "w put %s %s\n", mkTok([]byte(fmt.Sprintf("p%03d", x))), c13Val(r))
+			}
+			tx := j%100 + 1 + r.Intn(5)
 			fmt.Fprintf(w, "w batch %d\n", tx)
-			for j := 0; j < tx; j++ {
-				fmt.Fprintf(w, "o put %s %s\n", mkTok([]byte(fmt.Sprintf("t%03d", j))), c13Val(r))
+			for x := 0; x < tx; x++ {
+				fmt.Fprintf(w, "o put %s %s\n", mkTok([]byte(fmt.Sprintf("t%03d", x))), c13Val(r))
 			}
-			for j := 0; j < 1+r.Intn(4); j++ {
-				fmt.Fprintf(w, "w put %s %s\n", mkTok(genKey(r, 4)), c13Val(r))
+			if r.Intn(5) < 2 {
+				for x := 0; x < 1+r.Intn(3); x++ {
+					fmt.Fprintf(w, "w put %s %s\n", mkTok(genKey(r, 4)), c13Val(r))
+				}
 			}
 			fmt.Fprintln(w, "end")
 			continue
